@@ -332,16 +332,15 @@ def refsMain (s : State) (r arg filter cacheTok : String) (page : Nat) : State Ã
           let outSize := if filter â‰  "" then respSize out else contentLen s content
           if outSize > s.conf.rlimit then
             let pages := referrerSplit s.conf.rlimit out
-            if pages.isEmpty then (s, emptyRefs)
+            if pages.isEmpty then (s, { emptyRefs with filt := filtHdr filter })   -- the header was set before the split
             else
               let cacheSame := match DigArg.parse cacheTok with | .ok cd => cd.str = d.dig | .bad => false
               let pg := if page > 0 âˆ§ (!cacheSame âˆ¨ page â‰¥ pages.length) then 0 else page
               ({ s with rcache := s.rcache ++ [((r, arg, d.dig, filter), pages)] },
-               { status := 200, ct := "ocii", filt := filtHdr filter, body := refsBody (pages.getD pg []), link := refsLink pg pages.length d.dig,
-                 cl := toString (respSize (pages.getD pg [])) })
+               { status := 200, ct := "ocii", filt := filtHdr filter, body := refsBody (pages.getD pg []), link := refsLink pg pages.length d.dig })
           else
             ({ s with rcache := s.rcache ++ [((r, arg, d.dig, filter), [out])] },
-             { status := 200, ct := "ocii", filt := filtHdr filter, body := refsBody out, cl := toString outSize })
+             { status := 200, ct := "ocii", filt := filtHdr filter, body := refsBody out })
 
 /-- referrers GET: `filter` = artifactType parameter, `cacheTok`/`pageStr` = the cache and page parameters -/
 def refs (s : State) (r : String) (arg : String) (filter : String) (cacheTok : String := "") (pageStr : String := "") : State Ã— Resp :=
